@@ -11,7 +11,11 @@ inductive ConvErr where
   | tooManyVariables
 deriving Repr, DecidableEq
 
-def maxBddVars : Nat := 65535
+/-- `make_inner_variable_set` (after the `fix:` for D15): `u16::try_from(len + 2)? - 2`, so the
+    conversion returns the error as soon as `len + 2` does not fit into `u16` -/
+def maxBddVars : Nat := 65533
+/-- `BddVariableSet::new_anonymous` of lib-bdd panics for `u16::MAX - 1` variables or more -/
+def libBddPanicsFrom : Nat := 65534
 
 /-- `BddVariableSet::mk_dnf`: disjunction of conjunctive clauses `(variable, value)` -/
 def Inner.mkDnf (n : Nat) (clauses : List (List (Nat × Bool))) : Inner :=
@@ -75,6 +79,7 @@ def exprToTable (e : Expr α) : Table α := exprToTableWith (Expr.inputs e) e
 def exprToBdd (e : Expr α) : Except ConvErr (Outcome (Bdd α)) :=
   let lits := Expr.inputs e
   if lits.length > maxBddVars then .error .tooManyVariables
+  else if lits.length ≥ libBddPanicsFrom then .ok (.panic "lib-bdd: Too many BDD variables")
   else .ok (match exprToInner lits lits.length e with
     | none => .panic "from_expression.rs:40 expect"
     | some i => .ok ⟨lits, i⟩)
